@@ -4,6 +4,7 @@ package main
 // (InitChain / BeginBlock / DeliverTx / EndBlock / Commit / Query) with real signatures and real stores.
 
 import (
+	"bytes"
 	"encoding/json"
 	"fmt"
 	"os"
@@ -121,28 +122,72 @@ func NewChain(nAccts int, balances []GenBalance, customGenesis map[string]json.R
 	return c
 }
 
+// customStores is the raw content of the three custom stores, without the zero supply counters x/nft leaves behind
+// (invisible to every keeper read and never re-created by an import)
+func (c *Chain) customStores() map[string]string {
+	out := map[string]string{}
+	for _, name := range []string{"aol", "did", "pnft"} {
+		for _, kv := range c.DumpStore(name) {
+			if name == "pnft" && len(kv[0]) > 0 && kv[0][0] == 0x05 && isZeroUvarint(kv[1]) {
+				continue
+			}
+			out[name+"/"+string(kv[0])] = string(kv[1])
+		}
+	}
+	return out
+}
+
+func isZeroUvarint(v []byte) bool {
+	for _, b := range v {
+		if b != 0 {
+			return false
+		}
+	}
+	return true
+}
+
+type eiFinding struct{ Clause, Detail string }
+
+var customModules = []string{"aol", "did", "pnft", "burn"}
+
 // ExportImport exports the application state, validates the custom modules' genesis, and continues on a
-// fresh application (new DB) initialised from the exported state.  Returns "X ok" | "X invalid <module>" | "X panic <stage>".
-func (c *Chain) ExportImport() (result string) {
+// fresh application (new DB) initialised from the exported state.  Returns "X ok" | "X invalid <module>" | "X panic <stage>",
+// and what the implementation alone shows about C08: a second export of the same state, the state before and after,
+// the export of the imported chain.
+func (c *Chain) ExportImport() (result string, fs []eiFinding) {
 	stage := "export"
+	sfx := ""
 	defer func() {
 		if r := recover(); r != nil {
 			result = "X panic " + stage
+			fs = append(fs, eiFinding{"C08-panic" + sfx, fmt.Sprintf("genesis %s panicked: %v", stage, r)})
 		}
 	}()
+	before := c.customStores()
 	exported, err := c.App.ExportAppStateAndValidators(false, nil, nil)
 	if err != nil {
-		return "X invalid export"
+		return "X invalid export", []eiFinding{{"C08-export-error", err.Error()}}
+	}
+	again, err := c.App.ExportAppStateAndValidators(false, nil, nil)
+	if err != nil || !bytes.Equal(again.AppState, exported.AppState) {
+		fs = append(fs, eiFinding{"C08-export-unstable", "exporting the same state twice gave different bytes"})
 	}
 	var gs map[string]json.RawMessage
 	must(json.Unmarshal(exported.AppState, &gs))
+	for _, m := range customModules {
+		// json.Marshal writes the escape \ufffd only for bytes that are not valid UTF-8 (a literal U+FFFD is written as is)
+		if bytes.Contains(gs[m], []byte(`\ufffd`)) {
+			sfx = "-invalid-utf8"
+		}
+	}
 	stage = "validate"
 	enc := app.MakeEncodingConfig()
-	for _, m := range []string{"aol", "did", "pnft", "burn"} {
+	for _, m := range customModules {
 		for _, b := range app.ModuleBasics {
 			if hg, ok := b.(module.HasGenesisBasics); ok && b.Name() == m {
 				if err := hg.ValidateGenesis(enc.Codec, enc.TxConfig, gs[m]); err != nil {
-					return "X invalid " + m
+					fs = append(fs, eiFinding{"C08-export-invalid" + sfx, fmt.Sprintf("the exported %s genesis fails its own validation: %v", m, err)})
+					return "X invalid " + m, fs
 				}
 			}
 		}
@@ -165,7 +210,42 @@ func (c *Chain) ExportImport() (result string) {
 	c.App, c.DB, c.Home = a, db, home
 	c.Height = exported.Height
 	c.LastExport = exported.AppState
-	return "X ok"
+	stage = "re-export"
+	after := c.customStores()
+	nd := 0
+	var first string
+	for k, v := range before {
+		if w, ok := after[k]; !ok || w != v {
+			nd++
+			if first == "" || k < first {
+				first = k
+			}
+		}
+	}
+	for k := range after {
+		if _, ok := before[k]; !ok {
+			nd++
+			if first == "" || k < first {
+				first = k
+			}
+		}
+	}
+	if nd > 0 {
+		fs = append(fs, eiFinding{"C08-roundtrip" + sfx, fmt.Sprintf("%d store entries of the custom modules differ after export + import (first key %s/%x)", nd, strings.SplitN(first, "/", 2)[0], strings.SplitN(first, "/", 2)[1])})
+	}
+	re, err := c.App.ExportAppStateAndValidators(false, nil, nil)
+	if err != nil {
+		fs = append(fs, eiFinding{"C08-reexport", "the imported chain cannot be exported: " + err.Error()})
+		return "X ok", fs
+	}
+	var gs2 map[string]json.RawMessage
+	must(json.Unmarshal(re.AppState, &gs2))
+	for _, m := range customModules {
+		if !bytes.Equal(gs[m], gs2[m]) {
+			fs = append(fs, eiFinding{"C08-reexport" + sfx, fmt.Sprintf("the %s genesis exported by the imported chain differs from the genesis it was initialised from (%d vs %d bytes)", m, len(gs2[m]), len(gs[m]))})
+		}
+	}
+	return "X ok", fs
 }
 
 func (c *Chain) Close() {
